@@ -20,6 +20,7 @@ from ..common import Check
 from ..tlaval import cps
 
 LEVEL = "model_checking"
+RULE = ('cases = Gen_Lines.tla batches: every subset of candidate sites as include / exclude lines in relative, globbed and absolute spelling; non-trivial when at least one line pattern applies to the file; distinct = distinct (codemod, kind, E, I, spelling, sites)')
 PINS = Path(__file__).resolve().parent.parent.parent / "corpus" / "c13_pins.json"
 ABSROOT = "/T/"  # stands for the target directory in the specification; the run uses the real one
 
